@@ -188,9 +188,10 @@ theorem rootsRoot_noParent (h : Nat) : ∀ (rs : List HTree), (handlesList rs).N
 structure Forest.W (f : Forest) : Prop where
   nodup : f.allHandles.Nodup
   leaves : leafOkList f.roots = true
+  below : ∀ h ∈ f.allHandles, h < f.next
 
 theorem Forest.Inv.toW {f : Forest} (h : f.Inv) : f.W :=
-  ⟨h.nodup, validList_leafOk _ _ h.valid⟩
+  ⟨h.nodup, validList_leafOk _ _ h.valid, h.below⟩
 
 namespace Forest
 
